@@ -147,6 +147,12 @@ static void check_nonneg(const char *where)
                 bq < 0 ? bq : br);
 }
 
+/* global invariant (engine: evaluated in the state after every hooked write) */
+static void inv_nonneg(void)
+{
+    check_nonneg("global invariant, state after a write");
+}
+
 static void u3_fn(void *arg)
 {
     (void)arg;
@@ -424,6 +430,7 @@ static void scenario(int cfg)
     if (C->block == B_MUTEX)
         OK(ABT_mutex_create(&MTX));
 
+    abtmc_set_invariant(inv_nonneg);
     abtmc_window_begin();
     ABT_thread rt = ABT_THREAD_NULL;
     int xt = -1;
